@@ -67,6 +67,10 @@ def concrete_differential(paths, families, seed, log):
         except Unsupported as e:
             unenc += 1
             return
+        except Exception as e:   # an encoder fault on a concrete input: counted, reported by the caller as inconclusive
+            unenc += 1
+            mism.append(dict(fn=fn, engine_error=repr(e)[:200]))
+            return
         try:
             b = nat.replay_logged(fn, args)
         except implmod.ImplPanic as e:
